@@ -145,7 +145,11 @@ EFFECTS = {}  # target -> {ghost name: clause}
 CTX = {}
 
 
-def pop_call(target):
+ARG_NAMES = {}  # target -> parameter names of the contract (to bind the stub's arguments for effect clauses)
+HELPERS = {}
+
+
+def pop_call(target, args=(), kwargs=None):
     q = CALLS.get(target) or []
     if not q:
         raise Undecodable(f"replay: more calls of {target} than in the model path")
@@ -158,9 +162,18 @@ def pop_call(target):
             raise Undecodable(f"cannot raise {item['raised']} natively")
         raise exc()
     res = decode(item["result"], CTX)
+    env = dict(HELPERS)
+    names = ARG_NAMES.get(target, [])
+    for n, a in zip(names, args):
+        env[n] = a
+    env.update(kwargs or {})
+    env["result"] = res
+    env["raised"] = None
     for g, cl in EFFECTS.get(target, {}).items():
-        if cl.strip() == "result":
-            GHOST[g] = res
+        try:
+            GHOST[g] = eval_clause(cl, env, {})
+        except Exception:  # an effect that cannot be evaluated natively leaves the ghost unchanged (the replay then cannot confirm)
+            GHOST.setdefault("__effect_errors__", []).append(g)
     return res
 
 
